@@ -89,9 +89,14 @@ def rule_p1(ctx, F):
         ctx.floor("token end set to previous range's end", len(prev), 1)
         ctx.gate("P1", fn, cur, [("a token ending exactly at the start of a later range ends at the previous range's end instead",
                                   [("ts_lexer__eof(&self->data)", True), ("self->current_included_range_index > 0", False),
-                                   ("self->current_position.bytes == (&self->included_ranges[self->current_included_range_index])->start_byte", False)])],
+                                   ("self->current_position.bytes == (&self->included_ranges[self->current_included_range_index])->start_byte", False),
+                                   # …unless no earlier range contains any text (then there is no earlier end to fall back to)
+                                   ("previous_included_range->end_byte > previous_included_range->start_byte", False)])],
                  accept_desc="token_end_position = current_position")
-        ctx.gate("P1", fn, prev, [("only for a range other than the first", "self->current_included_range_index > 0", True)], accept_desc="using the previous range's end")
+        ctx.gate("P1", fn, prev, [("only for a range other than the first", "self->current_included_range_index > 0", True),
+                                  ("the range whose end is used contains text (an empty range lies anywhere; the token ends where the text before it ends)",
+                                   [("previous_included_range->end_byte > previous_included_range->start_byte", True), ("previous_included_range->end_byte == previous_included_range->start_byte", False)])],
+                 accept_desc="using the previous range's end")
     fn = ctx.need_fn(F, "ts_lexer__do_advance", "P1")
     if fn:
         jump = [pt for pt, n, l, op in stores(fn) if writes_record(l, "Lexer") == "current_position" and "start_byte" in show(n)]
